@@ -413,6 +413,17 @@ func (d *driver) runShard(i, n int) {
 			d.mu.Unlock()
 			return
 		}
+		if d.p.Race && !to {
+			// a schedule-dependent death (e.g. "fatal error: concurrent map writes") need
+			// not reproduce when the case is re-run alone: the observed crash is the evidence
+			stderr := tailFile(filepath.Join(dir, "stderr"), 6000)
+			rp, _ := json.Marshal(map[string]any{"property": d.p.ID, "kind": "_case", "input": map[string]any{"case": g, "tier": d.tier, "seed": d.seed}})
+			d.mu.Lock()
+			d.agg.addViol(&Violation{Key: sanitizeKey("crash:" + crashSignature(stderr)), Detail: "child process died during a concurrent workload\n" + stderr, Replay: rp, Case: g, Count: 1})
+			d.mu.Unlock()
+			from = g + 1
+			continue
+		}
 		d.confirmCase(dir, g, to)
 		if to {
 			d.mu.Lock()
